@@ -685,7 +685,46 @@ func c11Cursor(c *Ctx) {
 		"the per-protocol reader is not a bytes.Buffer although "+strings.Join(fragile, ", ")+" reads its payload with a plain Read and fails on any error: an empty payload in last position gets io.EOF, so the library's own encoding no longer decodes")
 	B := bb["B"]
 	ph, isPhi := B.V.(*ssa.Phi)
+	// shared-buffer idiom: one bytes.Buffer over the data parameter, made before the loop; every protocol reads its own
+	// encoding off its front, the loop runs while buf.Len() != 0 and the code is peeked from buf.Bytes()
+	sharedBuf := false
+	var bufX *X
+	if nb, isCall := strip(rd.X.Args[1]).V.(*ssa.Call); isCall && isBuffer && B.Op == "param" && !ReachableFromSucc(nb.Block(), nb.Block()) && ReachableFromSucc(rd.In.Block(), rd.In.Block()) && len(readsI[0].Via) == 0 {
+		sharedBuf, bufX = true, c.E(nb)
+		okUses := true
+		if nb.Referrers() != nil {
+			for _, r := range *nb.Referrers() {
+				switch r := r.(type) {
+				case *ssa.Call:
+					name := ""
+					if callee := r.Call.StaticCallee(); callee != nil {
+						name = callee.Name()
+					}
+					if !(name == "Len" || name == "Bytes") {
+						okUses = false
+					}
+				case *ssa.MakeInterface, *ssa.DebugRef:
+				default:
+					okUses = false
+				}
+			}
+		}
+		okCond := false
+		for _, b := range u.SSA.Blocks {
+			if iff, ok := b.Instrs[len(b.Instrs)-1].(*ssa.If); ok {
+				if _, m := Match(Bin("!=", Call("bytes.Buffer).Len", Is(bufX)), Const("0")), c.E(iff.Cond)); m {
+					okCond = true
+				}
+				if _, m := Match(Op("binop", ">", Call("bytes.Buffer).Len", Is(bufX)), Const("0")), c.E(iff.Cond)); m {
+					okCond = true
+				}
+			}
+		}
+		c.Check(okUses, "C11.M6-cursor-discipline", key+" › advance by consumed", rd.In.Pos(), "one buffer over the input, advanced only by the protocols reading their own encoding off it", "the shared input buffer is also consumed or replaced outside the protocols' ReadFrom")
+		c.Check(okCond, "C11.M6-cursor-discipline", key+" › loop while bytes remain", u.SSA.Pos(), "loop condition is buf.Len() != 0", "loop condition does not test the remaining input")
+	}
 	switch {
+	case sharedBuf:
 	case isPhi:
 		// relative idiom: B = phi(param, B[n:]) with n = bytes consumed in this iteration; loop while len(B) != 0
 		okAdv := false
@@ -750,6 +789,9 @@ func c11Cursor(c *Ctx) {
 	}
 	// the protocol decoded is the one selected by the code at the cursor
 	_, okSel := Match(c.RoleCall("metadata.factory", Any(), Extract("0", Call("go-varint.FromUvarint", Is(B)))), rd.X.Args[0])
+	if sharedBuf {
+		_, okSel = Match(c.RoleCall("metadata.factory", Any(), Extract("0", Call("go-varint.FromUvarint", Call("bytes.Buffer).Bytes", Is(bufX))))), rd.X.Args[0])
+	}
 	c.Check(okSel, "C11.M6-cursor-discipline", key+" › protocol chosen by the code at the cursor", rd.In.Pos(), "the protocol is chosen from the varint at the current position", "protocol not chosen from the code at the current cursor position")
 	c.Floor("C11.M6-cursor-discipline", 3)
 }
